@@ -14,8 +14,8 @@ ASSUMPTIONS = ["atomic.Uint64.Add is a single atomic increment (Go memory model)
 
 def corpus():
     return ["iter.seq 18446744073709551615 5", "iter.seq 9223372036854775808 4", "iter.seq 9223372036854775809 4",
-            "run prop=C03 mode=users dur=600 conc=2 maxit=10 failsetupat=3",      # C03k: the scenario fails its *setup* handle while iterations run: every id is still an invocation
-            "run prop=C03 mode=constant rate=4/100ms dist=none dur=900 conc=3 maxit=12 failsetupat=2",
+            "run prop=C03 mode=users dur=600 conc=2 maxit=10 failsetupat=3 expectlimit=1",      # C03k: the scenario fails its *setup* handle while iterations run: every id is still an invocation
+            "run prop=C03 mode=constant rate=4/100ms dist=none dur=900 conc=3 maxit=12 failsetupat=2 expectlimit=1",
             "iter.seq 3 5", "iter.seq 0 9", "iter.seq 1 1", "iter.seq 7 7", "iter.seq 7 0",
             "iter.stress 1 16 40 300", "iter.stress 3 16 40 300",
             "pool.ids 3 users 16 10 0 20", "pool.ids 0 users 5 15 0 3",
